@@ -1230,7 +1230,10 @@ class Session:
                 if sg not in bad_in:
                     ex_ = {"binder": binder_kind(p._loopir_proc, sym)}
                     if d.startswith("allocation extent"):
-                        ex_["where"] = "alloc-extent"
+                        # "alloc-extent": the loop that declared the variable no longer exists in the result
+                        # (it was divided / fused / ... and its variable substituted); otherwise the
+                        # allocation was moved out of a loop that is still there
+                        ex_["where"] = "alloc-extent" if binder_kind(r0._loopir_proc, sym) == "none" else "alloc-extent-moved-out"
                     self.violate("C04", sg, f"after {name}: {d}", name, ex_)
                     self.tainted.add(rec["out"])
                     break
